@@ -268,6 +268,8 @@ def run(ctx):
                     a['min_downtime'] = 1
                 a['time_already_running'] = 0; a['time_already_off'] = 2; a['last_dispatch'] = 0.0
     prof += sd
+    # daily steps across a clock change (23 h / 25 h days): running consumption, costs and limits follow the length of EACH step
+    prof += gen.gen_many_plants(ctx.seed, n // 4, dict(CFG, freqs=['d'], units=['h'], tzs=['CET'], p_dst=1.0, T=(4, 7), p_profile=0.0, p_fuel=1.0), 'c06dst_')
     # a declared ramp of zero (output may not change while running)
     prof += gen.gen_many_plants(ctx.seed, n // 4, dict(CFG, p_ramp0=1.0, p_profile=0.3), 'c06r0_')
     # profiles given in another frequency than the grid's (interpolated / averaged: Ramp.v)
